@@ -42,6 +42,8 @@ def scenarios(tier):
     # process creation fails once (the retry inside spawn_process must make up for it) at the j-th attempt
     for j in ((4, 5) if tier == 'quick' else (4, 5, 6, 7)):
         out.append(Scenario('hist', n0=2, singleton=False, w=0.0, pat='obedient', max_age=0, tier=tier, fault=j))
+    # the watcher's workers are the daemon's only children (no bystander): when all have died waitpid(-1) answers ECHILD
+    out.append(Scenario('hist', n0=1, singleton=False, w=0.0, pat='obedient', max_age=0, tier=tier, solo=True))
     # an after_spawn hook that rejects the k-th worker (k-th call overall): replacement spawns of a reload included
     for k in ((3, 4) if tier == 'quick' else (3, 4, 5)):
         out.append(Scenario('hist', n0=2, singleton=False, w=0.0, pat='slow', max_age=0, tier=tier, reject=k))
@@ -112,9 +114,10 @@ def run(scn, ch):
         if scn.max_age:
             opts.update(max_age=scn.max_age, max_age_variance=1)
         # 'z' is a bystander watcher: state hoisted to a shared scope would show up as a disturbance of z
-        world = World(ch, [WSpec('a', numprocesses=scn.n0, behaviours=pattern(scn.pat), **opts),
-                           WSpec('z', numprocesses=1, graceful_timeout=G)],
-                      check_delay=scn.p.get('tick', 1.0))
+        specs_ = [WSpec('a', numprocesses=scn.n0, behaviours=pattern(scn.pat), **opts)]
+        if not scn.p.get('solo'):
+            specs_.append(WSpec('z', numprocesses=1, graceful_timeout=G))
+        world = World(ch, specs_, check_delay=scn.p.get('tick', 1.0))
         world.deaths_only = ('a',)
         for hw in hook_world:
             world.hook_counters = hw.hook_counters
@@ -148,9 +151,9 @@ def run(scn, ch):
             res.check('C01.count_eq_target', n == w.numprocesses or any(p.stopping for p in w.processes.values()),
                       lambda: 'live=%d target=%d (max_age world)' % (n, w.numprocesses), where='watcher.manage_processes')
             return
-        lz = live(world, 'z')
+        lz = live(world, 'z') if world.watcher('z') is not None else None
         zsig = [x for x in world.kernel.signal_log if x[3] != 'os.kill' and world.kernel.procs[x[1]].watcher == 'z']
-        res.check('C01.bystander_untouched', len(lz) == 1 and not zsig and world.watcher('z').numprocesses == 1,
+        res.check('C01.bystander_untouched', lz is None or (len(lz) == 1 and not zsig and world.watcher('z').numprocesses == 1),
                   lambda: 'bystander watcher z: %d live workers, signals %s, numprocesses %s (after %s)'
                   % (len(lz), zsig, world.watcher('z').numprocesses, [e.label for _, e in win.applied]),
                   where='watcher', nontrivial=bool(win.applied))
